@@ -8,6 +8,7 @@ d42.generation._random scripted to the same boundary outcomes.
 Conforms accepts it; drift = differs from the operational generator model.
 """
 from . import absmap as am
+from .common import safe_repr
 from . import core, valgen
 from .common import try_abs
 
@@ -24,14 +25,14 @@ def run_one(cache, s, tape):
         return None
     exc, val = valgen.real_fake(real, tape)
     ev = {"s": s, "tape": tape, "exc": exc, "vok": True, "rep": False, "v": [],
-          "repr": repr(real)[:300]}
+          "repr": safe_repr(real)[:300]}
     if not exc:
         try:
             ev["vok"] = not d42.validate(real, val).has_errors()
         except Exception:
             ev["vok"] = False
         ev["rep"], ev["v"] = try_abs(am.a_value, val)
-        ev["vrepr"] = repr(val)[:200]
+        ev["vrepr"] = safe_repr(val)[:200]
     return ev
 
 
@@ -82,14 +83,14 @@ def main(chk):
                     val = __import__("d42").fake(real)
                 except Exception as e:
                     exc = type(e).__name__
-                ev = {"s": s, "tape": [], "exc": exc, "vok": True, "rep": False, "v": [], "repr": repr(real)[:300]}
+                ev = {"s": s, "tape": [], "exc": exc, "vok": True, "rep": False, "v": [], "repr": safe_repr(real)[:300]}
                 if not exc:
                     try:
                         ev["vok"] = not __import__("d42").validate(real, val).has_errors()
                     except Exception:
                         ev["vok"] = False
                     ev["rep"], ev["v"] = try_abs(am.a_value, val)
-                    ev["vrepr"] = repr(val)[:200]
+                    ev["vrepr"] = safe_repr(val)[:200]
             ev["id"] = len(events) + 1
             events.append(ev)
             chk.count("deep_runs")
